@@ -37,7 +37,7 @@ TIMEOUT = {"quick": 3600, "thorough": 28800}
 
 PGRID = [0.001, 0.003, 0.01, 0.03, 0.1, 0.25, 0.5, 0.75, 0.9, 0.95, 0.99, 0.999,
          0.9999, 0.99999]
-NLADDER = list(range(2, 51)) + [100, 1000, 10000, 1000000]
+NLADDER = list(range(2, 51)) + [100, 1000, 10000, 1000000, 3000000]
 TOLK = 1e-9          # relative accuracy demanded of k (see _judge_ksingle)
 
 
@@ -48,7 +48,8 @@ def _ncls(n):
         return "n3-10"
     if n <= 50:
         return "n11-50"
-    return {100: "n1e2", 1000: "n1e3", 10000: "n1e4", 1000000: "n1e6"}.get(n, "nother")
+    return {100: "n1e2", 1000: "n1e3", 10000: "n1e4", 1000000: "n1e6",
+            3000000: "n1e6"}.get(n, "nother")
 
 
 def _pcls(p):
@@ -130,7 +131,11 @@ def _judge_ksingle(sh, S, mp, p, c, n, k, case, tags):
         sh.count("refused:quad-error")
         return
     cm = mp.mpf(c)
-    tol = TOLK * max(abs(t), 1) * dF + mp.mpf(10) ** -17
+    # beyond n = 1e6 (non-centrality in the thousands) SciPy's nct.ppf, which ksingle is
+    # documented to be, is itself good to ~1e-8 only (6e-9 observed at n = 3e6, p = .9999);
+    # the point of that rung is the sign / side of the factor, so k is judged to 1e-7 there
+    tolk = TOLK if n <= 1000000 else 1e-7
+    tol = tolk * max(abs(t), 1) * dF + mp.mpf(10) ** -17
     err = abs(F - cm)
     sh.count("mon:ksingle-nct-equation")
     ratio = float(err / tol)
@@ -296,6 +301,21 @@ def _run_grid(sh, params):
             case0 = {"f": name, "P": P.tolist(), "C": C.tolist(), "N": "ladder"}
             tags = {"f": name, "grid": True}
             try:
+                # the arguments as float64 arrays a caller keeps and reuses: they must come
+                # back untouched, and the same call again must give the same bits
+                Pa, Ca = P[:, None, None].copy(), C[None, :, None].copy()
+                Na = N[None, None, :].astype(float)
+                keep = [x.copy() for x in (Pa, Ca, Na)]
+                K = f(Pa, Ca, Na)
+                same_args = all(a.tobytes() == b.tobytes() for a, b in zip((Pa, Ca, Na), keep))
+                K2 = f(Pa, Ca, Na)
+                sh.count("mon:args-unmutated-and-repeatable")
+                if not same_args or np.asarray(K2).tobytes() != np.asarray(K).tobytes():
+                    sh.violation("args-unmutated-and-repeatable", case0,
+                                 {"arguments_unchanged": bool(same_args),
+                                  "second_call_same_bits": bool(
+                                      np.asarray(K2).tobytes() == np.asarray(K).tobytes())},
+                                 tags)
                 K = f(P[:, None, None], C[None, :, None], N[None, None, :])
             except Exception as e:
                 sh.violation("exception:" + name + "-grid", case0, {"exc": repr(e)}, tags)
